@@ -116,8 +116,8 @@ fn observe(tokens: &[&str]) -> String {
     let p = match rpm::Package::parse(&mut &first[..]) { Ok(p) => p, Err(_) => return "err-reparse".into() };
     let o = p.metadata.get_package_segment_offsets();
     let (h, pl) = (o.header as usize, o.payload as usize);
-    let comp = tokens.iter().find_map(|t| t.strip_prefix("c=")).unwrap_or("zstd:19");
-    let arch = decompress(comp.split(':').next().unwrap(), &first[pl..]);
+    let kind = tokens.iter().find_map(|t| t.strip_prefix("c=")).map(|c| c.split(':').next().unwrap()).unwrap_or(crate::bld::default_comp_kind());
+    let arch = decompress(kind, &first[pl..]);
     let mt = p.metadata.get_file_entries().map(|v| v.iter().map(|f| f.modified_at.0).max().unwrap_or(0)).unwrap_or(0);
     let cmt = arch.as_ref().map(|a| max_cpio_mtime(a)).unwrap_or("-".into());
     format!(
